@@ -200,9 +200,8 @@ func FinishSpeculativeLength(b []byte, pos int) []byte {
 		if cap(b) >= pos+msiz+mlen {
 			b = b[:pos+msiz+mlen]
 		} else {
-			newSlice := make([]byte, pos+msiz+mlen)
-			copy(newSlice, b)
-			b = newSlice
+			// NOTICE: grow by append (amortized): an exact-size copy here makes every enclosing message copy the whole buffer again
+			b = append(b, make([]byte, msiz-speculativeLength)...)
 		}
 		copy(b[pos+msiz:], b[pos+speculativeLength:])
 	}
